@@ -14,6 +14,10 @@
 
    Definitions only; RunWRowsProofs.v proves that these entry points ARE the model functions the
    theorems speak about (no lookalikes). *)
+From MLA Require Import Limit.
+From MLAGen Require Src.
+(* executable entry points: the production value of BINCODE_MAX_DESERIALIZE (the same in both flavours), file-local *)
+#[local] Instance RUN_LIMIT : Limit := MLAGen.Src.BINCODE_MAX_DESERIALIZE_prod.
 From MLA Require Import Base Stream Inst EncLayer EncWriter InstGcm Sink Gcm Format
   Ecies EciesGcm CompLayer Archive ArchiveInst.
 (* Format.v has a finfo record of its own (same field names): Blocks last, so that its names win *)
